@@ -100,8 +100,8 @@ def buildIds (i : SyncIn) : NodeIds :=
     (s.add (gv.1.getD (LIM + (gv.2 : Int)))).2.2) NodeIds.create
   let s1 := i.slots.zipIdx.foldl (fun (s : NodeIds) (gv : Option Int × Nat) =>
     if gv.1.isNone then (s.removeWithoutGlobal (gv.2 : Int)).2 else s) s0
-  let s2 := i.unused.foldl (fun (s : NodeIds) u => s.pushUnused u) s1
-  { s2 with oldN := i.oldN, newN := i.newN }
+  -- `pushUnused` one by one (its `maxUnused` bookkeeping is irrelevant here and makes it quadratic)
+  { s1 with unusedStk := i.unused.reverse, oldN := i.oldN, newN := i.newN }
 
 def fmtTable (s : NodeIds) : String :=
   join ((liveTable s).map fun lg => s!"{lg.1}:{lg.2}")
@@ -173,7 +173,7 @@ def opElimOff (rest : List String) : String :=
   let ut := (rest.dropWhile (· != ";")).drop 1
   match gt.mapM String.toInt?, ut.mapM String.toInt? with
   | some gs, some us =>
-    if gs.all inLim && us.all inLim then join ("ok" :: (elimOffset gs us).map toString) else "bad-op"
+    if rest.contains ";" && gs.all inLim && us.all inLim then join ("ok" :: (elimOffset gs us).map toString) else "bad-op"
   | _, _ => "bad-op"
 
 def opActive (rest : List String) : String :=
